@@ -546,15 +546,29 @@ pub fn run(ctx: &Ctx) {
     let rv2 = build_v::<RG2>(p2, &l2);
     real_group_law::<RG2>(ctx, &rv2);
     ctx.extra("real alphabets", json!({"G1 points": rv1.pts.iter().map(|p| p.name.clone()).collect::<Vec<_>>(), "G2 points": rv2.pts.iter().map(|p| p.name.clone()).collect::<Vec<_>>(), "G1 projective values": rv1.v.len(), "G2 projective values": rv2.v.len()}));
+    // concrete-type call forms on the real groups
+    {
+        use pairing_plus::bls12_381::{G1Affine, G2Affine, G1, G2};
+        let ks: Vec<pairing_plus::bls12_381::FrRepr> = vec![frrepr(&num_bigint::BigUint::from(0u32)), frrepr(&num_bigint::BigUint::from(1u32)), frrepr(&(r() - 1u32)), frrepr(&(crate::alpha::pow2(256) - 1u32)), frrepr(&crate::alpha::pow2(64))];
+        let s1: Vec<G1> = rv1.v.iter().step_by((rv1.v.len() / 10).max(1)).map(|e| e.0).collect();
+        let s2: Vec<G2> = rv2.v.iter().step_by((rv2.v.len() / 8).max(1)).map(|e| e.0).collect();
+        shadow_curve!(ctx, "G1", G1, G1Affine, &s1, &ks);
+        shadow_curve!(ctx, "G2", G2, G2Affine, &s2, &ks);
+    }
     // register files
     // complete reachable state spaces: 3 registers over F_7, 2 registers over F_19; 3 registers over F_19 depth-bounded
-    toy_bfs::<T7_2>(ctx, None, 3);
-    if ctx.quick() {
-        toy_bfs::<T19_4>(ctx, Some(4), 3);
-    } else {
-        toy_bfs::<T19_4>(ctx, None, 2);
-        toy_bfs::<T19_4>(ctx, Some(6), 3);
+    #[cfg(feature = "toy")]
+    {
+        toy_bfs::<T7_2>(ctx, None, 3);
+        if ctx.quick() {
+            toy_bfs::<T19_4>(ctx, Some(4), 3);
+        } else {
+            toy_bfs::<T19_4>(ctx, None, 2);
+            toy_bfs::<T19_4>(ctx, Some(6), 3);
+        }
     }
+    #[cfg(not(feature = "toy"))]
+    ctx.degraded("toy register-file BFS");
     real_bfs::<RG1>(ctx, &rv1, ctx.tier.pick(3, 4));
     real_bfs::<RG2>(ctx, &rv2, ctx.tier.pick(2, 3));
 }
